@@ -366,5 +366,5 @@ func runC18(c c18Case, o *vfutil.Obs) *vfutil.Failure {
 }
 
 func TestVerifC18(t *testing.T) {
-	vfutil.Run(t, vfutil.Spec[c18Case]{ID: "C18", Gen: genC18, Run: runC18})
+	vfutil.Run(t, vfutil.Spec[c18Case]{ID: "C18", Gen: genC18, Run: runC18, Journal: true})
 }
